@@ -1787,6 +1787,9 @@ class unyt_array(np.ndarray):
         return ret
 
     def __setitem__(self, item, value):
+        if isinstance(value, (list, tuple)):
+            # a list of quantities is converted like a quantity
+            value = _coerce_iterable_units(value)
         if hasattr(value, "units"):
             if value.units != self.units and value.units != NULL_UNIT:
                 value = value.to(self.units)
